@@ -116,6 +116,11 @@ def run_property(pid, tier, seed):
                     os.environ.pop(k, None)
                 else:
                     os.environ[k] = v
+    # baseline of obligations discharged on the reference tree (committed, regenerated only by tools/mkbaseline.py)
+    try:
+        baseline = json.load(open(os.path.join(VERIF, "baseline", f"{pid}.json")))
+    except Exception:
+        baseline = {}
     ctx = getattr(eng, "fn_ctx", {})
     by_fn_failed = {}
     canaries = [o for o in eng.obligations if o.kind == "canary"]
@@ -128,6 +133,24 @@ def run_property(pid, tier, seed):
             continue
         f = driver.triage(getattr(ob, "eng", eng), pid, ob, ctx)
         if f is None:
+            # undecided by the back ends. If this very obligation was discharged on the reference tree and the function's
+            # source has changed since, it is reported (with the solver's reason) rather than left undecided.
+            b = baseline.get(ob.name)
+            cur_sha = eng.repo.func(ob.fn).sha if (":" in ob.fn and eng.repo.has_func(ob.fn)) else None
+            if b is not None and cur_sha is not None and b.get("sha") != cur_sha:
+                os.makedirs(os.path.join(VERIF, "replays", pid), exist_ok=True)
+                safe = "".join(ch if ch.isalnum() or ch in "._-" else "_" for ch in ob.name.split("::", 1)[-1])[:80]
+                path = os.path.join("replays", pid, f"{ob.fn.split(':')[-1]}__{safe}.json")
+                with open(os.path.join(VERIF, path), "w") as fh:
+                    json.dump({"property": pid, "function": ob.fn, "obligation": ob.name, "clause": ob.clause, "line": ob.line,
+                               "solver": {"result": ob.result, "backend": ob.backend, "reason": ob.info.get("reason", "")},
+                               "note": "no-failing-input-found: this obligation was discharged on the reference tree "
+                                       f"(function source {b.get('sha')}) and is no longer discharged after the function changed ({cur_sha})"},
+                              fh, indent=1)
+                f = driver.Finding(pid, ob.name, ob.clause, path, False, {"baseline": b})
+                findings.append(f)
+                by_fn_failed.setdefault(ob.fn, []).append(ob.name)
+                continue
             undecided.append(ob)
         else:
             findings.append(f)
@@ -224,6 +247,14 @@ def run_property(pid, tier, seed):
         "assumptions": sorted(set(getattr(mod, "ASSUMPTIONS", [])) | eng.used_assumptions),
         "wall_s": round(time.time() - t0, 2), "violations": len(reported),
     }
+    if os.environ.get("VERIF_WRITE_BASELINE") == "1":
+        os.makedirs(os.path.join(VERIF, "baseline"), exist_ok=True)
+        bl = {}
+        for o in obl:
+            if o.result == "valid" and ":" in o.fn and eng.repo.has_func(o.fn):
+                bl[o.name] = {"sha": eng.repo.func(o.fn).sha}
+        with open(os.path.join(VERIF, "baseline", f"{pid}.json"), "w") as fh:
+            json.dump(bl, fh, indent=0, sort_keys=True)
     os.makedirs(os.path.join(VERIF, "evidence"), exist_ok=True)
     with open(os.path.join(VERIF, "evidence", f"{pid}.json"), "w") as f:
         json.dump(ev, f, indent=1, default=str)
